@@ -134,3 +134,167 @@ func VerifC19_SimplexOneRow() {
 	}
 	verifReach("solved")
 }
+
+func verifC19sDet(a, b [2]float64) float64 {
+	return a[0]*b[1] - a[1]*b[0]
+}
+
+// VerifC19_SimplexTwoRows: m = 2 constraints, n = 3..4 variables. A and b are
+// case-split over small integer boxes (Phase I and every basic solution are then
+// concrete: with a symbolic b one fixed A did not finish in 5 minutes), the
+// cost c is symbolic. The gap assumption is stated on c and on the numerators
+// of the Phase II reduced costs c_j det[a_i,a_k] - c_i det[a_j,a_k] - c_k det[a_i,a_j].
+func VerifC19_SimplexTwoRows() {
+	n := verifChoose("n", 3, verifParam("c19lpn2", 3))
+	lo, hi := verifParam("c19lplo2", -1), verifParam("c19lphi2", 1)
+	col := make([][2]float64, n)
+	data := make([]float64, 2*n)
+	code := verifParam("c19lpcode", -1) // >= 0: one fixed matrix (digits base hi-lo+1), for reproduction
+	skip0 := verifParam("c19lpskip0", 0) == 1 // entries from [lo, hi] without 0
+	for j := 0; j < n; j++ {
+		for i := 0; i < 2; i++ {
+			var v float64
+			if code >= 0 {
+				v = float64(lo + code%(hi-lo+1))
+				code /= hi - lo + 1
+			} else {
+				v = float64(verifChoose("a"+string(rune('0'+i))+string(rune('0'+j)), lo, hi))
+				if v == 0 && skip0 {
+					return
+				}
+			}
+			col[j][i] = v
+			data[i*n+j] = v
+		}
+	}
+	tol := verifC19sTol()
+	blo, bhi := verifParam("c19lpblo", -1), verifParam("c19lpbhi", 2)
+	b := [2]float64{float64(verifChoose("b0", blo, bhi)), float64(verifChoose("b1", blo, bhi))}
+	c := verifFloats("c", n)
+	for j := range c {
+		verifAssume(verifC19sGap(c[j]))
+	}
+	for i := 0; i < n; i++ {
+		for k := i + 1; k < n; k++ {
+			for j := 0; j < n; j++ {
+				if j != i && j != k {
+					verifAssume(verifC19sGap(c[j]*verifC19sDet(col[i], col[k]) - c[i]*verifC19sDet(col[j], col[k]) - c[k]*verifC19sDet(col[i], col[j])))
+				}
+			}
+		}
+	}
+	A := mat.NewDense(2, n, data)
+
+	var optF float64
+	var x []float64
+	var err error
+	panicked, _, _ := verifCatch(func() {
+		optF, x, err = Simplex(c, A, []float64{b[0], b[1]}, tol, nil)
+	})
+	verifAssert(!panicked, "Simplex does not panic on consistent shapes")
+	if panicked {
+		return
+	}
+
+	zero := false
+	for i := 0; i < 2; i++ {
+		z := true
+		for j := 0; j < n; j++ {
+			if col[j][i] != 0 {
+				z = false
+			}
+		}
+		zero = zero || z
+	}
+	for j := 0; j < n; j++ {
+		if col[j][0] == 0 && col[j][1] == 0 {
+			zero = true
+		}
+	}
+	if zero {
+		verifAssert(err != nil, "a zero row or column of A is reported as an error")
+		verifReach("end")
+		return
+	}
+	fullRank := false
+	for i := 0; i < n; i++ {
+		for k := i + 1; k < n; k++ {
+			if verifC19sDet(col[i], col[k]) != 0 {
+				fullRank = true
+			}
+		}
+	}
+	if !fullRank {
+		verifAssert(err == ErrSingular, "a rank deficient A is classified ErrSingular")
+		verifReach("singular")
+		return
+	}
+	// Basic feasible solutions (Cramer's rule).
+	feasible := false
+	for i := 0; i < n; i++ {
+		for k := i + 1; k < n; k++ {
+			d := verifC19sDet(col[i], col[k])
+			if d == 0 {
+				continue
+			}
+			xi := verifC19sDet(b, col[k]) / d
+			xk := verifC19sDet(col[i], b) / d
+			feasible = verifOr(feasible, verifAnd(xi >= 0, xk >= 0))
+		}
+	}
+	// Rays of the recession cone: null vectors of column triples with one sign.
+	unbounded := false
+	for i := 0; i < n; i++ {
+		for j := i + 1; j < n; j++ {
+			for k := j + 1; k < n; k++ {
+				di, dj, dk := verifC19sDet(col[j], col[k]), -verifC19sDet(col[i], col[k]), verifC19sDet(col[i], col[j])
+				if di <= 0 && dj <= 0 && dk <= 0 {
+					di, dj, dk = -di, -dj, -dk
+				}
+				if di >= 0 && dj >= 0 && dk >= 0 && di+dj+dk > 0 {
+					unbounded = verifOr(unbounded, c[i]*di+c[j]*dj+c[k]*dk < 0)
+				}
+			}
+		}
+	}
+	if !feasible {
+		verifAssert(err == ErrInfeasible, "an infeasible program is classified ErrInfeasible")
+		verifReach("infeasible")
+		return
+	}
+	if unbounded {
+		verifAssert(err == ErrUnbounded, "an unbounded program is classified ErrUnbounded")
+		verifReach("unbounded")
+		return
+	}
+	verifAssert(err == nil, "a feasible bounded program is solved without error")
+	if err != nil {
+		return
+	}
+	verifAssert(len(x) == n, "x has n entries")
+	if len(x) != n {
+		return
+	}
+	var ax0, ax1, cx float64
+	for j := range x {
+		verifAssert(x[j] >= 0, "x >= 0")
+		ax0 += col[j][0] * x[j]
+		ax1 += col[j][1] * x[j]
+		cx += c[j] * x[j]
+	}
+	verifAssertEqF(ax0, b[0], "Ax = b (row 0)")
+	verifAssertEqF(ax1, b[1], "Ax = b (row 1)")
+	verifAssertEqF(optF, cx, "optF = c'x")
+	for i := 0; i < n; i++ {
+		for k := i + 1; k < n; k++ {
+			d := verifC19sDet(col[i], col[k])
+			if d == 0 {
+				continue
+			}
+			xi := verifC19sDet(b, col[k]) / d
+			xk := verifC19sDet(col[i], b) / d
+			verifAssert(verifImplies(verifAnd(xi >= 0, xk >= 0), optF <= c[i]*xi+c[k]*xk), "optF does not exceed the cost of any basic feasible solution")
+		}
+	}
+	verifReach("solved")
+}
